@@ -144,3 +144,168 @@ Theorem C01_parsed_reveal_nonzero :
          reveal_c (aop_of_view p v kf crypto_ok patch_applies c intern) <> 0%Z.
 Proof. exact parsed_reveal_nonzero. Qed.
 Print Assumptions C01_parsed_reveal_nonzero.
+
+From Coq Require Import String NArith List. From SV Require Import Base.Bytes Hash.Multihash Jws.Compact Resolve.Op Parser.Accept Parser.AcceptProofs Parser.ViewOfBytes Resolve.Apply Resolve.Process Resolve.Inert Resolve.Spec Resolve.FromView Resolve.FromViewProofs Resolve.FromBytes Resolve.FromBytesProofs.
+Local Close Scope Z_scope.
+
+(* authorised_view_sound for the operation computed from the request BYTES (decoders of Parser/ViewOfBytes.v in front of the bridge): a well signed non-create operation satisfies the size gate on the length of the bytes, the signed-request rules on what the decoders make of the bytes, consumes the commitment of the signing key, and the primitive accepted the signing input under a key that decodes *)
+Theorem C01_authorised_bytes_sound :
+  forall (p : pproto) (b : bytes) (valid : list bool) (origin : bool) 
+           (kf : key_facts) (crypto_ok patch_applies : bool) (c : coords) 
+           (intern : bytes -> Z),
+         let o := aop_of_bytes p b valid origin kf crypto_ok patch_applies c intern in
+         let v := view_of_request b valid origin in
+         let s := rv_signed v in
+         let k := jwk_of_view (sv_key s) kf in
+         ty o <> Create ->
+         well_signed o ->
+         rv_len v = Z.of_nat (Datatypes.length b) /\
+         (rv_len v <= pp_max_op_size p)%Z /\
+         rv_schema_ok v = true /\
+         rv_struct_ok v = true /\
+         signed_rules p v /\
+         (ty o = Update -> hash_field_ok p (sv_delta_hash s)) /\
+         (ty o = Recover ->
+          hash_field_ok p (sv_delta_hash s) /\
+          hash_field_ok p (sv_recovery_commitment s) /\
+          (exists (code : N) (c' : bytes),
+             get_multihash_code (sv_recovery_commitment s) = Some code /\
+             get_commitment (jv_canonical (sv_key s)) code = Some c' /\
+             c' <> sv_recovery_commitment s)) /\
+         (ty o = Deactivate -> sv_did_suffix s = rv_did_suffix v) /\
+         (exists (code : N) (kc : bytes),
+            get_multihash_code (rv_reveal v) = Some code /\
+            get_commitment (jv_canonical (sv_key s)) code = Some kc /\ reveal_c o = intern kc) /\
+         (exists payload sig msg : bytes,
+            parse_compact (sv_compact s) (sv_hdr s) = Some (payload, sig) /\
+            signing_input (sv_hdr s) payload = Some msg /\
+            crypto_ok = true /\
+            jwk_decodes k = true /\
+            payload <> [] /\
+            sig <> [] /\
+            h_json_ok (sv_hdr s) = true /\
+            h_has_alg (sv_hdr s) = true /\
+            h_b64 (sv_hdr s) <> B64NotBool /\
+            (eqs (k_kty k) "EC" = true /\
+             (exists n : Z,
+                ec_key_size (k_crv k) = Some n /\ Z.of_nat (Datatypes.length sig) = (2 * n)%Z) \/
+             eqs (k_kty k) "EC" = false /\ eqs (k_kty k) "OKP" = true)).
+Proof. exact authorised_bytes_sound. Qed.
+Print Assumptions C01_authorised_bytes_sound.
+
+(* the boolean authorised of the inertness theorems gives well_signed (and sfx_ok for deactivate) on operations computed from bytes *)
+Theorem C01_authorised_bytes_implies_well_signed :
+  forall (p : pproto) (b : bytes) (valid : list bool) (origin : bool) 
+           (kf : key_facts) (crypto_ok patch_applies : bool) (c : coords) 
+           (intern : bytes -> Z),
+         let o := aop_of_bytes p b valid origin kf crypto_ok patch_applies c intern in
+         ty o <> Create ->
+         authorised o = true -> well_signed o /\ (ty o = Deactivate -> sfx_ok o = true).
+Proof. exact authorised_bytes_well_signed. Qed.
+Print Assumptions C01_authorised_bytes_implies_well_signed.
+
+(* whatever the request bytes are: a non-create operation whose signature the primitive refuses is rejected by Apply in every state *)
+Theorem C01_forged_bytes_never_applies :
+  forall (p : pproto) (b : bytes) (valid : list bool) (origin : bool) 
+           (kf : key_facts) (patch_applies : bool) (c : coords) (intern : bytes -> Z) 
+           (s : state),
+         ty (aop_of_bytes p b valid origin kf false patch_applies c intern) <> Create ->
+         apply (aop_of_bytes p b valid origin kf false patch_applies c intern) s = None.
+Proof. exact forged_bytes_never_applies. Qed.
+Print Assumptions C01_forged_bytes_never_applies.
+
+(* the same when the JWK inside the signed data does not decode (secp256k1 point off curve or wrong coordinate length, go-jose refuses) *)
+Theorem C01_undecodable_key_never_applies :
+  forall (p : pproto) (b : bytes) (valid : list bool) (origin : bool) 
+           (kf : key_facts) (crypto_ok patch_applies : bool) (c : coords) 
+           (intern : bytes -> Z) (s : state),
+         let o := aop_of_bytes p b valid origin kf crypto_ok patch_applies c intern in
+         ty o <> Create ->
+         jwk_decodes (jwk_of_view (sv_key (rv_signed (view_of_request b valid origin))) kf) = false ->
+         apply o s = None.
+Proof. exact undecodable_key_never_applies. Qed.
+Print Assumptions C01_undecodable_key_never_applies.
+
+(* processor level: every non-create operation that resolution of the stored operation bytes applies is the image of a stored operation whose signature the primitive accepted under a key that decodes *)
+Theorem C01_resolution_of_stored_bytes_applies_signed_operations_only :
+  forall (p : pproto) (intern : bytes -> Z) (pub unpub : list stored_op) 
+           (c0 : aop) (s : state) (ap : list aop),
+         resolve_full (map (aop_of_stored p intern) pub) (map (aop_of_stored p intern) unpub) no_opts =
+         inr (Some (c0, s, ap)) ->
+         Forall
+           (fun o : aop =>
+            exists so : stored_op,
+              In so (pub ++ unpub) /\
+              o = aop_of_stored p intern so /\
+              ty o <> Create /\
+              so_crypto_ok so = true /\
+              jwk_decodes
+                (jwk_of_view
+                   (sv_key (rv_signed (view_of_request (so_bytes so) (so_valid so) (so_origin so))))
+                   (so_kf so)) = true) ap.
+Proof. exact resolve_bytes_applied_signed. Qed.
+Print Assumptions C01_resolution_of_stored_bytes_applies_signed_operations_only.
+
+(* a well formed commitment table (world.Table: no empty key, no id 0, no id twice) names the empty string 0 and is injective on the empty string and its keys; the bridge cases check per operation that every commitment string is covered *)
+Theorem C01_table_interning_injective_on_covered_strings :
+  forall t : list (bytes * Z),
+         tbl_ok t = true ->
+         intern_tbl t [] = 0%Z /\
+         (forall a b : bytes,
+          tbl_covers t a = true -> tbl_covers t b = true -> intern_tbl t a = intern_tbl t b -> a = b).
+Proof. exact intern_tbl_ok_on. Qed.
+Print Assumptions C01_table_interning_injective_on_covered_strings.
+
+(* with such a table covering the operation's commitment strings, an accepted non-create request has a non-zero recomputed commitment *)
+Theorem C01_parsed_bytes_reveal_named :
+  forall (p : pproto) (b : bytes) (valid : list bool) (origin : bool) 
+           (kf : key_facts) (crypto_ok patch_applies : bool) (c : coords) 
+           (t : list (bytes * Z)),
+         let v := view_of_request b valid origin in
+         tbl_ok t = true ->
+         forallb (tbl_covers t) (commitments_of_view v) = true ->
+         ty_of_view v <> Create ->
+         view_parse_ok p v = true ->
+         reveal_c (aop_of_bytes p b valid origin kf crypto_ok patch_applies c (intern_tbl t)) <> 0%Z.
+Proof. exact parsed_bytes_reveal_named. Qed.
+Print Assumptions C01_parsed_bytes_reveal_named.
+
+(* Apply computes the same from an operation and from its normal form (create: sig_ok; update/recover: sfx_ok; deactivate: delta verdicts; delta hash mismatch: dvalid, delta content; signature refused: window) - the fields in which the harness's by-construction statement differs from what the real code determines on the bytes *)
+Theorem C01_apply_blind_to_normal_form :
+  forall (o : aop) (s : state), apply (aop_norm o) s = apply o s.
+Proof. exact apply_norm. Qed.
+Print Assumptions C01_apply_blind_to_normal_form.
+
+(* processor.Resolve (state, error, returned and applied operation lists) is the same on a store content and on its normal form, for every resolution option *)
+Theorem C01_resolution_blind_to_normal_form :
+  forall (pub unpub : list aop) (opts : ropts),
+         resolve (map aop_norm pub) (map aop_norm unpub) (norm_opts opts) = resolve pub unpub opts.
+Proof. exact resolve_norm. Qed.
+Print Assumptions C01_resolution_blind_to_normal_form.
+
+(* histories whose operations agree pairwise up to the normal form (the comparison of Corr/Bridge.v) resolve identically *)
+Theorem C01_equal_up_to_normal_form_same_resolution :
+  forall (pub pub' unpub unpub' : list aop) (opts opts' : ropts),
+         Forall2 eq_upto_norm pub pub' ->
+         Forall2 eq_upto_norm unpub unpub' ->
+         o_vid opts = o_vid opts' ->
+         o_vtime opts = o_vtime opts' ->
+         Forall2 eq_upto_norm (o_additional opts) (o_additional opts') ->
+         resolve pub unpub opts = resolve pub' unpub' opts'.
+Proof. exact resolve_eq_upto_norm. Qed.
+Print Assumptions C01_equal_up_to_normal_form_same_resolution.
+
+(* if every stored operation passes the bridge comparison against the operation the harness states for it, the processor model run on the BYTES equals the processor model run on the harness's statements (the ones C01-C06/C12 compare with the real processor) *)
+Theorem C01_bridge_checked_history :
+  forall (p : pproto) (intern : bytes -> Z) (pub unpub : list stored_op) 
+           (o : bopts) (spub sunpub sadd : list aop),
+         Forall2 (fun (so : stored_op) (st : aop) => eq_upto_norm (aop_of_stored p intern so) st) pub
+           spub ->
+         Forall2 (fun (so : stored_op) (st : aop) => eq_upto_norm (aop_of_stored p intern so) st)
+           unpub sunpub ->
+         Forall2 (fun (so : stored_op) (st : aop) => eq_upto_norm (aop_of_stored p intern so) st)
+           (bo_additional o) sadd ->
+         resolve_bytes p intern pub unpub o =
+         resolve spub sunpub {| o_vid := bo_vid o; o_vtime := bo_vtime o; o_additional := sadd |}.
+Proof. exact bridge_checked_history. Qed.
+Print Assumptions C01_bridge_checked_history.
